@@ -29,7 +29,7 @@ ASSUMPTIONS = [
 ]
 MIN = {
     "quick": {"structures_equal": 60, "majors_equal": 150, "minor_scores_equal": 120, "minor_solutions_equal": 120,
-              "end_to_end_equal": 20, "each_build_correct": 40},
+              "end_to_end_equal": 20, "each_build_correct": 40, "vcf_builds_equal": 10},
     "thorough": {"structures_equal": 2000, "majors_equal": 5000, "minor_scores_equal": 4000,
                  "minor_solutions_equal": 4000, "end_to_end_equal": 600},
 }
@@ -42,6 +42,8 @@ def plan(tier, seed):
     cases = [{"kind": "stage", "seed": seed, "batch": b, "n": 5} for b in range(n)]
     for k in range(24 if tier == "quick" else 400):
         cases.append({"kind": "e2e", "seed": seed, "k": k})
+    for k in range(16 if tier == "quick" else 300):
+        cases.append({"kind": "vcf", "seed": seed, "k": k})
     return cases
 
 
@@ -109,6 +111,42 @@ def _two_builds(rng):
 _CACHE = {}
 
 
+_REGIONS_DONE = set()
+
+
+def check_regions(res, name, ga, gb):
+    """A RefSeq base lies in the same named region of the gene in both builds (so that fusion break points and
+    the region copy test mean the same thing)."""
+    if name in _REGIONS_DONE:
+        return
+    _REGIONS_DONE.add(name)
+    bad = []
+    n = 0
+    for r, ca in ga.ref_to_chr.items():
+        cb = gb.ref_to_chr.get(r)
+        if cb is None:
+            continue
+        n += 1
+        ra, rb = ga.region_at(ca), gb.region_at(cb)
+        if (ra and ra[0] == 0 and rb and rb[0] == 0 and ra[1] != rb[1]) or (bool(ra) != bool(rb)):
+            bad.append((r, ra, rb))
+            if len(bad) > 4:
+                break
+    if name.startswith("gen"):
+        res.check("regions_mean_the_same", not bad,
+                  "a RefSeq base lies in different regions of the gene in the two builds",
+                  db=name, strands=[ga.strand, gb.strand], examples=bad, compared=n)
+        for an in list(ga.alleles)[:12]:
+            if an in gb.alleles:
+                diff = [r for r, ca in list(ga.ref_to_chr.items())[::7]
+                        if r in gb.ref_to_chr and ga.has_coverage(an, ca) != gb.has_coverage(an, gb.ref_to_chr[r])][:3]
+                res.check("regions_mean_the_same", not diff,
+                          "an allele has gene copies at a RefSeq base in one build only", db=name, allele=an,
+                          refseq_positions=diff)
+    elif bad:
+        res.count("shipped_region_tables_differ_between_builds")
+
+
 def _stage_case(res, rng, ident):
     from aldy.cn import solve_cn_model
     from aldy.major import estimate_major
@@ -117,6 +155,7 @@ def _stage_case(res, rng, ident):
     from aldy.solutions import CNSolution
 
     name, ga, gb = _two_builds(rng)
+    check_regions(res, name, ga, gb)
     copies = _tables.random_copies(ga, rng, n=rng.choice([1, 2, 2, 3]))
     if any(c[0] not in gb.alleles or c[1] not in gb.alleles[c[0]].minors for c in copies):
         res.count("skipped_catalogues_differ")
@@ -270,12 +309,77 @@ def _e2e_case(res, case):
     return desc
 
 
+def _vcf_case(res, case):
+    """The same diploid sample written as a VCF against each build; in one build the assembly carries the
+    alternate base of a catalogued SNP (REF differs from the RefSeq-derived reference there)."""
+    from aldy.genotype import genotype
+
+    from ..gen import vcfgen
+
+    rng = util.rng_for("c13v", case["seed"], case["k"])
+    seed = rng.randrange(30)
+    opts = dict(want_cn=False, strands=rng.choice([(1, -1), (-1, 1)]), hostile=0.3,
+                kinds=["snp", "snp", "snp", "del"], silent_kinds=["snp", "del"])
+    dba = _sim.gen_db(seed, "hg19", **opts)
+    dbb = _sim.gen_db(seed, "hg38", **opts)
+    ga = dba.gene
+    cands = [c for c in tables.all_copies(ga) if ga.alleles[c[0]].cn_config == "1"]
+    copies = [rng.choice(cands), rng.choice(cands)]
+    # RefSeq-level genotype: copies of every written variant
+    want = collections.Counter()
+    for c in copies:
+        for m in tables.allele_variants(ga, *c):
+            want[refseq_of(ga, m)] += 1
+    snps = sorted(refseq_of(ga, m) for m in ga.mutations if ">" in m[1] and len(m[1]) == 3)
+    flip = rng.choice(snps) if snps and rng.random() < 0.8 else None
+    flip_build = rng.choice(["hg19", "hg38"])
+    outs = []
+    desc = {"db": dba.label, "strands": [dba.gene.strand, dbb.gene.strand], "copies": [list(c) for c in copies],
+            "assembly_carries_alt_of": flip, "in_build": flip_build}
+    for db in (dba, dbb):
+        g = db.gene
+        by_written = {refseq_of(g, m): m for m in g.mutations}
+        recs = []
+        for w, m in sorted(by_written.items()):
+            k = want.get(w, 0)
+            flipped = (w == flip and db.genome == flip_build)
+            if not k and not flipped:
+                continue
+            for (pos1, r, alts) in vcfgen.records_for(g, db.ref, m):
+                if flipped:
+                    # assembly base = variant base: REF = alt, ALT = RefSeq base; carriers of the variant are REF
+                    gt = {0: "1/1", 1: "0/1", 2: "0/0"}[k]
+                    recs.append((pos1, alts[0], [r], [gt]))
+                else:
+                    recs.append((pos1, r, alts, [{1: "0/1", 2: "1/1"}[k]]))
+        vcf = vcfgen.write_vcf(os.path.join(util.scratch_dir(), f"v_{db.genome}.vcf"), g.chr, db.contig_len, recs)
+        try:
+            with util.time_limit(60):
+                out = genotype(db.path, vcf, None, None, genome=db.genome)
+            sols = list(out.values())[0]
+            outs.append(sorted(canon_minor_solution(g, s) for s in sols))
+        except util.Slow:
+            res.count("skipped_slow")
+            return None
+        except Exception as e:
+            outs.append("error: " + repr(e)[:100])
+    res.check("vcf_builds_equal", outs[0] == outs[1],
+              "the same sample written as a VCF against the two builds is genotyped differently",
+              first=str(outs[0])[:400], second=str(outs[1])[:400], **desc)
+    return desc
+
+
 def run(case):
     util.import_aldy()
     lpmon.install()
     res = Res()
     fps = []
-    if case["kind"] == "stage":
+    if case["kind"] == "vcf":
+        d = _vcf_case(res, case)
+        if d:
+            fps.append(util.fingerprint(d))
+            res.sample = d if case["k"] < 2 else None
+    elif case["kind"] == "stage":
         for k in range(case["n"]):
             rng = util.rng_for("c13", case["seed"], case["batch"], k)
             d = _stage_case(res, rng, [case["seed"], case["batch"], k])
